@@ -14,7 +14,7 @@ from .. import bus, cover, gen, ref
 LEVEL = 'exploration'
 JOBS = {'quick': 1, 'thorough': 16}
 REQUIRED_MONITORS = ('min_image_reference', 'symmetry', 'lattice_shift', 'inverse_flag', 'history_independence')
-REQUIRED_CLASSES = ('box:cubic', 'box:anisotropic', 'box:triclinic', 'arg:residue', 'arg:point',
+REQUIRED_CLASSES = ('box:cubic', 'box:anisotropic', 'box:triclinic', 'arg:residue', 'arg:point', 'arg:multi-residue-molecule',
                     'placement:across-face', 'placement:far-outside', 'placement:lattice-points', 'box:triclinic-upper-only', 'box:triclinic-full', 'wrapped:yes', 'wrapped:no',
                     'session:same', 'session:rescale-in-place', 'session:new-values-in-place', 'session:other-object')
 RULE = ('pairs (residue, residue-or-point) x box; classes: box kind (cubic / anisotropic rectangular / triclinic with '
@@ -99,6 +99,22 @@ def cases(ctx):
         yield {'batch': b}
     for b in range(60 if ctx.tier == 'quick' else 40000):
         yield {'session': b}
+
+
+def make_multi_residue_molecule(rng, centre):
+    """A molecule of two to four residues of different sizes; neighbouring residues have different names and, half of
+    the time, the same residue number (a lipid whose head and tail are named differently under one number)."""
+    sizes = [int(x) for x in rng.integers(1, 5, int(rng.integers(2, 5)))]
+    n = sum(sizes)
+    pos = rng.normal(size=(n, 3)) * 0.3
+    pos += centre - pos.mean(axis=0)
+    resnames, resids, num = [], [], int(rng.integers(1, 900))
+    for k, sz in enumerate(sizes):
+        if k and rng.random() < 0.5:
+            num += 1
+        resnames += [f'P{k}'] * sz
+        resids += [num] * sz
+    return gen.make_molecule('LIP', gen.atom_names(n, 'L'), gen.chain(n), pos, resnames=resnames, resids=resids)
 
 
 def make_residue(rng, centre, n):
@@ -253,6 +269,9 @@ def run_case(ctx, case):
         res_a = make_residue(rng, pa, na)
         as_res = rng.random() < 0.5
         other = make_residue(rng, pb, int(rng.integers(1, 11))) if as_res else pb.copy()
+        if as_res and rng.random() < 0.3:
+            other = make_multi_residue_molecule(rng, pb)
+            ctx.hit('arg:multi-residue-molecule')
         ca = res_a.geometric_center
         cb = other.geometric_center if as_res else other
         frac = np.linalg.solve(box.T, cb - ca)
